@@ -99,16 +99,25 @@ def snap_graph(G):
     """cnfgen graph objects (public accessors only) and networkx graphs (nodes/edges/attributes)."""
     import networkx
     if isinstance(G, networkx.Graph):
-        return {
+        s = {
             'class': type(G).__name__,
+            'class_module': type(G).__module__,
             'nodes': tuple((freeze(u), freeze(dict(d))) for u, d in G.nodes(data=True)),
+            'node_attr_class': tuple(type(d).__name__ for _, d in G.nodes(data=True)),
             'edges': tuple((freeze(u), freeze(v), freeze(dict(d))) for u, v, d in G.edges(data=True)),
             'adj': tuple((freeze(u), tuple(freeze(v) for v in G.adj[u])) for u in G),
             'graph': freeze(dict(G.graph)),
             'name': freeze(G.name),
             'order': G.order(),
             'size': G.number_of_edges(),
+            'frozen': bool(networkx.is_frozen(G)),
+            'instance_extras': freeze({k: v for k, v in vars(G).items() if k.startswith('user_')}),
         }
+        if G.is_multigraph():
+            s['keyed_edges'] = tuple((freeze(u), freeze(v), freeze(k), freeze(dict(d))) for u, v, k, d in G.edges(keys=True, data=True))
+        if G.is_directed():
+            s['pred'] = tuple((freeze(u), tuple(freeze(v) for v in G.pred[u])) for u in G)
+        return s
     from cnfgen.graphs import Graph, DirectedGraph, BaseBipartiteGraph
     s = {
         'class': type(G).__name__,
@@ -190,10 +199,170 @@ def nx_bipartite(g, style='int'):
     return decorate(G)
 
 
+# ---------------------------------------------------------------------------
+# networkx inputs as a foreign caller may hold them: every observable aspect is a parameter
+#
+#   g['nx'] = {'sides':  how the 'bipartite' attribute is spelled (int 0/1, str '0'/'1', bool, mixed, per node),
+#              'order':  insertion order of nodes and edges (natural, reversed, shuffled, interleaved; 'oseed'),
+#              'cls':    plain networkx class, a user subclass with an instance attribute, a multigraph with a
+#                        parallel edge, a frozen graph,
+#              'labels': LABEL_STYLES + tuples, mixed int/str (not sortable), negative integers,
+#              'extra':  no attributes / flat attributes / nested lists, dicts, tuples, None, non-string keys,
+#                        attributes called 'bipartite' where the library does not look for them,
+#              'gname':  graph name set, absent, empty}
+
+NX_SIDES = ('int', 'str', 'bool', 'mixed')
+NX_ORDERS = ('natural', 'reversed', 'shuffled', 'interleaved')
+NX_CLASSES = ('plain', 'sub', 'multi', 'frozen')
+NX_LABELS = LABEL_STYLES + ('tuple', 'mixed', 'negative')
+NX_EXTRAS = ('none', 'plain', 'deep')
+NX_NAMES = ('str', 'absent', 'empty')
+NX_DEFAULT = {'sides': 'int', 'order': 'natural', 'cls': 'plain', 'labels': 'int', 'extra': 'plain', 'gname': 'str', 'oseed': 0}
+NX_DIMENSIONS = (('sides', NX_SIDES), ('order', NX_ORDERS), ('cls', NX_CLASSES), ('labels', NX_LABELS),
+                 ('extra', NX_EXTRAS), ('gname', NX_NAMES))
+
+_USER_CLASSES = {}
+
+
+def _nx_class(cls, directed):
+    import networkx
+    if cls == 'multi':
+        return networkx.MultiDiGraph if directed else networkx.MultiGraph
+    if cls == 'sub':
+        if directed not in _USER_CLASSES:
+            base = networkx.DiGraph if directed else networkx.Graph
+            _USER_CLASSES[directed] = type('UserDiGraph' if directed else 'UserGraph', (base,), {})
+        return _USER_CLASSES[directed]
+    return networkx.DiGraph if directed else networkx.Graph
+
+
+def _foreign_label(style, i):
+    if style == 'tuple':
+        return ('g', i)
+    if style == 'mixed':
+        return i if i % 2 else 'm{}'.format(i)
+    if style == 'negative':
+        return -i
+    return _label(style, i)
+
+
+def _side(style, side, i):
+    if style == 'int':
+        return side
+    if style == 'str':
+        return str(side)
+    if style == 'bool':
+        return bool(side)
+    if style == 'mixed':
+        return (str(side), side, bool(side))[i % 3]
+    raise ValueError(style)
+
+
+def _node_attrs(extra, i, bip_value, bipartite_kind):
+    """attribute dictionary of node number i, in the order of insertion of the keys"""
+    if extra == 'none':
+        return [('bipartite', bip_value)] if bipartite_kind else []
+    if extra == 'plain':
+        items = [('tag', ['t', i]), ('weight', i % 3)]
+        return ([('bipartite', bip_value)] if bipartite_kind else []) + items
+    items = [('tag', ['t', [i, {'k': [i, None]}]]), ('weight', i / 2), ('pos', (i, -i)),
+             ('flags', {'a': None, 'b': [True, 0], 3: 'three'}), (7, 'seven'), ('label', str(i))]
+    if bipartite_kind:
+        # the side is not the first key of every dictionary
+        cut = i % 3
+        return items[:cut] + [('bipartite', bip_value)] + items[cut:]
+    return items + [('bipartite', ('1', 0, True, 'left')[i % 4])]      # means nothing for this kind of graph
+
+
+def _edge_attrs(extra, j):
+    if extra == 'none':
+        return []
+    if extra == 'plain':
+        return [('w', {'k': j}), ('label', 'e{}'.format(j))]
+    return [('w', {'k': [j, {'deep': (j, [j])}]}), ('weight', 1.5 + j), ('bipartite', '1'), (0, [False]), ('label', 'e{}'.format(j))]
+
+
+def nx_foreign(kind, g):
+    """networkx object for the case g (see NX_DEFAULT above); kind in simple/dag/digraph/bipartite"""
+    import networkx
+    spec = dict(NX_DEFAULT)
+    spec['labels'] = g.get('labels', 'int')
+    spec.update(g.get('nx') or {})
+    directed = kind in ('dag', 'digraph')
+    bip = kind == 'bipartite'
+    if bip:
+        L = g['L']
+        n = L + g['R']
+        edges = [(u, L + v) for u, v in g['edges']]
+    else:
+        L = None
+        n = g['n']
+        edges = [(u, v) for u, v in g['edges']]
+    r = _random.Random(spec.get('oseed', 0))
+    nodes = list(range(1, n + 1))
+    if spec['order'] == 'reversed':
+        nodes.reverse()
+        edges.reverse()
+    elif spec['order'] == 'shuffled':
+        r.shuffle(nodes)
+        r.shuffle(edges)
+    elif spec['order'] == 'interleaved':
+        if bip:
+            left, right = nodes[:L], nodes[L:]
+            nodes = [x for pair in zip(right, left) for x in pair] + right[len(left):] + left[len(right):]
+        else:
+            nodes = nodes[1::2] + nodes[0::2]
+        edges = edges[1::2] + edges[0::2]
+    if spec['order'] != 'natural' and not directed:
+        edges = [(v, u) if r.random() < 0.5 else (u, v) for u, v in edges]      # either endpoint first
+    G = _nx_class(spec['cls'], directed)()
+    lab = lambda i: _foreign_label(spec['labels'], i)
+    for i in nodes:
+        G.add_node(lab(i))
+        d = G.nodes[lab(i)]
+        for k, v in _node_attrs(spec['extra'], i, _side(spec['sides'], 0 if (bip and i <= L) else 1, i), bip):
+            d[k] = v
+    for j, (u, v) in enumerate(edges):
+        if G.is_multigraph():
+            key = G.add_edge(lab(u), lab(v))
+            d = G.edges[lab(u), lab(v), key]
+        else:
+            G.add_edge(lab(u), lab(v))
+            d = G.edges[lab(u), lab(v)]
+        for k, v2 in _edge_attrs(spec['extra'], j):
+            d[k] = v2
+    if G.is_multigraph() and edges:
+        u, v = edges[0]
+        key = G.add_edge(lab(u), lab(v))                     # a parallel edge with its own attributes
+        G.edges[lab(u), lab(v), key]['parallel'] = ['copy', key]
+    if spec['gname'] == 'str':
+        G.name = 'nx {} graph ({})'.format(kind, spec['labels'])
+    elif spec['gname'] == 'empty':
+        G.name = ''
+    if spec['extra'] != 'none':
+        G.graph['note'] = ['kept', {'deep': [1, (2, 3)]}] if spec['extra'] == 'deep' else ['kept', 0]
+    if spec['extra'] == 'deep':
+        G.graph['bipartite'] = 'yes'
+        G.graph[5] = {'five': [5]}
+    if spec['cls'] == 'sub':
+        G.user_note = ['instance attribute', {'of': 'the caller'}]
+    if spec['cls'] == 'frozen':
+        networkx.freeze(G)
+    return G
+
+
+def nx_left_order(G):
+    """number of nodes on side 0 of a networkx graph with 'bipartite' attributes of any spelling"""
+    return sum(1 for _, d in G.nodes(data=True) if d['bipartite'] in (0, '0'))
+
+
 def build_graph(kind, g):
-    """kind in simple/dag/digraph/bipartite; g['as'] in cnfgen/networkx; g['labels'] a label style"""
+    """kind in simple/dag/digraph/bipartite; g['as'] in cnfgen/networkx; g['labels'] a label style;
+    g['nx'] (optional) the foreign-object parameters of nx_foreign"""
     from vlib import graphs_gen as gg
     if g.get('as', 'cnfgen') == 'networkx':
+        if g.get('nx') is not None:
+            return nx_foreign(kind, g)
         style = g.get('labels', 'int')
         if kind == 'simple':
             return nx_simple(g, style)
